@@ -27,6 +27,7 @@ class Family:
         self.props = props
         self.also = also or (lambda prop, formula, scenario: False)
         self.assumptions = assumptions or []
+        self.prepare = None           # optional: prepare(tier, seed, dir) -> extra environment for the recorder
 
 
 def corpus_dir(fam, tier, sd):
@@ -67,10 +68,11 @@ def record_corpus(fam, tier, sd):
         binp = os.path.join(d, "sim.test")
         vlib.build_test_binary(fam.pkg, binp)
         shards = min(vlib.NCPU, 16)
+        extra_env = fam.prepare(tier, sd, d) if fam.prepare else {}
         procs = []
         for i in range(shards):
             env = dict(os.environ, VERIF_OUT=os.path.join(d, "shard%02d.ndjson" % i), VERIF_TIER=tier,
-                       VERIF_SEED=str(sd), VERIF_SHARD="%d/%d" % (i, shards), TMPDIR=os.path.join(d, "tmp%d" % i))
+                       VERIF_SEED=str(sd), VERIF_SHARD="%d/%d" % (i, shards), TMPDIR=os.path.join(d, "tmp%d" % i), **extra_env)
             os.makedirs(env["TMPDIR"])
             out = open(os.path.join(d, "shard%02d.log" % i), "w")
             procs.append((subprocess.Popen([binp, "-test.run", "TestCorpus", "-test.v", "-test.timeout", "3h"],
@@ -152,6 +154,24 @@ def scenario_lines(d, name):
         if on:
             out.append(json.loads(line))
     return out
+
+
+def replay_stats(d):
+    """Counts the replayed model behaviours and their conformance divergences
+    from the Reset records of the corpus."""
+    st = {"behaviours_replayed": 0, "model_steps": 0, "divergences": [], "cut_by_nondeterminism": 0}
+    for line in open(os.path.join(d, "corpus.ndjson")):
+        if '"ev":"Reset"' not in line[:4000] or '"replay":true' not in line:
+            continue
+        r = json.loads(line)
+        m = r.get("meta", {})
+        st["behaviours_replayed"] += 1
+        st["model_steps"] += int(m.get("modelSteps", 0))
+        if m.get("divergence"):
+            st["divergences"].append("%s: %s" % (r.get("scenario"), m["divergence"]))
+        if m.get("cut"):
+            st["cut_by_nondeterminism"] += 1
+    return st
 
 
 def model_check(fam, prop, tier, wd):
@@ -240,6 +260,9 @@ def run(fam, prop, tier):
                 violations.append(("formula %s false in scenario %s" % (f, name), path))
         for name, viols in reps[:3]:
             samples.append({"scenario": name, "violated": [f for f, _ in viols]})
+        rs = replay_stats(d)
+        for dv in rs["divergences"][:10]:
+            log("CONFORMANCE-DIVERGENCE %s" % dv)
         mc = model_check(fam, prop, tier, wd)
         inconclusive = None
         if mc is not None and not mc["ok"]:
@@ -256,6 +279,9 @@ def run(fam, prop, tier):
                                  "corpus_reused": info.get("reused", False), "record_s": info.get("record_s")},
             "violated_formulas": perFormula,
             "harness_errors": info.get("harness_errors", [])[:20],
+            "spec_to_impl_replay": {"behaviours_replayed": rs["behaviours_replayed"], "model_steps": rs["model_steps"],
+                                    "divergences": len(rs["divergences"]), "divergence_samples": rs["divergences"][:5],
+                                    "cut_by_nondeterminism": rs["cut_by_nondeterminism"]},
             "exhaustive": False,
         }
         vlib.write_evidence(prop, tier, "model_checking", cov, time.time() - t0, len(violations), fam.assumptions)
